@@ -17,6 +17,7 @@ import sys
 
 sys.path.insert(0, os.path.join(os.path.dirname(os.path.abspath(__file__)), "..", "lib"))
 import vlib  # noqa
+import fedlib  # noqa
 
 PAM = {"lib/controller/localdb/login_pam.go": "harness/stubs/login_pam_stub.go"}
 PLANS = ["match", "mismatch", "s404", "s5xx", "hang"]
@@ -145,6 +146,7 @@ def run(ctx):
     by_id.update({s["id"]: s for s in lscns})
     events += levents
     ctx.extra["legacy_traces"] = len(vlib.split_traces(levents))
+    events = fedlib.drop_infra_traces(ctx, events, "fetch")
     traces = vlib.split_traces(events)
     ctx.evaluations = len(traces)
     # impl-model prediction vs. real outcome, where what was really sent is what the model planned
